@@ -79,6 +79,7 @@ pub enum Point {
     DepKeyAfterRead,
     WaitAfterFirstCheck,
     WaitBeforePark,
+    NotifyReturn,
     AbortAfterReason,
     CancelAfterStore,
     MvLookup,
